@@ -723,6 +723,14 @@ func Emit(repo string) {
 	sort.Strings(regExt)
 	fmt.Printf("Definition registered_ext_options : list string := %s.\n", coqStrList(regExt))
 
+	// MsgEthereumTx.GetSigners: recovered from the signature (GetSender) and never from the unsigned From field
+	recovered := false
+	if fd := findFunc(ParseDir(repo+"/x/evm"), "GetSigners", "MsgEthereumTx"); fd != nil {
+		body := Nospace(fd.Body)
+		recovered = strings.Contains(body, "msg.GetSender(") && !strings.Contains(body, "From")
+	}
+	fmt.Printf("Definition eth_signers_from_signature : bool := %s.\n", CoqBool(recovered))
+
 	// SigGasConsumer installed by app.go
 	sgc := "?"
 	for _, fl := range appFiles {
